@@ -1,5 +1,6 @@
 import St4sd.Model.Layer
 import St4sd.Model.DslLoad
+import St4sd.Model.ReplVars
 /-!
 Witnesses for C15.
 
@@ -60,5 +61,36 @@ theorem sorted_identity_does_not :
     assignEnvs [] [.dict envAB, .dict envBA] = [.env 0, .env 0] := by decide
 
 end Dsl
+
+/-! ## a resolution loop with a scope shared between the components (NOT the code)
+
+`St4sd.Repl.resolveAll` (the code) starts every iteration from fresh copies of the global and stage scopes.  A
+loop that layered global + stage once and merged the variables of every visited component INTO that shared
+scope would resolve `replicate: %(N)s` of `sweep` with the private `N` of whichever sibling was visited before
+it: the result depends on the order in which a set enumerates the components, i.e. on the hash seed.  The
+harness loads such packages (`minimal-shadow`, generator `gen_shadow_package`) in processes with different
+PYTHONHASHSEED and drives `FlowIR.apply_replicate` with explicit orders. -/
+namespace ReplShared
+open St4sd.Repl
+
+/-- the leaking loop: `scope` accumulates the variables of the visited components -/
+def resolveShared (scope : St4sd.Repl.Vars) : List Raw → List (Option Nat)
+  | [] => []
+  | r :: rs =>
+    let vis := override scope r.vars
+    (match countIn vis r.replicate with
+      | .ok n => n
+      | .error _ => none) :: resolveShared vis rs
+
+def tune : Raw := { stage := 0, name := "tune".toList, refs := [], vars := [("N".toList, "3".toList)],
+                    replicate := .absent, aggregate := .absent }
+def sweep : Raw := { stage := 0, name := "sweep".toList, refs := [], vars := [], replicate := .var "N".toList,
+                     aggregate := .absent }
+
+theorem shared_scope_depends_on_visiting_order :
+    resolveShared [("N".toList, "2".toList)] [sweep, tune] = [some 2, none] ∧
+    resolveShared [("N".toList, "2".toList)] [tune, sweep] = [none, some 3] := by decide
+
+end ReplShared
 
 end St4sd.C15.Witness
